@@ -11,7 +11,9 @@ Record server := { data : list N; kind : skind }.
    together with the last bytes instead of on the next call *)
 Record rd_ev := { rk : nat; rfail : bool; reager : bool }.
 (* one client.Do outcome *)
-Inductive conn_ev := CServe | CErr | CStatus.
+(* CServeAs k: this connection is answered by a backend of kind k, whatever the
+   session's default kind (a CDN whose nodes differ) *)
+Inductive conn_ev := CServe | CErr | CStatus | CServeAs (k : skind).
 
 Inductive err := ENone | EEOF | EFail.
 
@@ -87,14 +89,15 @@ Definition reset (srv : server) (s : st) : res (st * bool) :=
   let rng := match progress s with O => None | p => Some p end in
   let (c, conns') := next_conn (conns s) in
   let s1 := {| progress := progress s; bdy := closed; reads := reads s; conns := conns'; reqs := reqs s ++ [rng] |} in
+  let knd := match c with CServeAs k => k | _ => kind srv end in
   match c with
   | CErr | CStatus => Ok (s1, false)
-  | CServe =>
+  | CServe | CServeAs _ =>
     match rng with
     | None => Ok ({| progress := progress s; bdy := {| rest := data srv; dead := false |};
                      reads := reads s; conns := conns'; reqs := reqs s1 |}, true)
     | Some p =>
-      match kind srv with
+      match knd with
       | RejectsRange => Ok (s1, false)
       | HonoursRange =>
           if Nat.ltb p (List.length (data srv))
